@@ -86,7 +86,7 @@ def generate(tier, wd, seed, fname="table.ndjson"):
         gen_states += r.distinct
         runs.append(dict(c, MODE="random"))
     cat = dict(MODE='"cat"', V=3, EMIN=1, EMAX=7, LMIN=1, LMAX=5, WSET={4, 5, 6, 8, 10}, WD=4, DSET={1, 2, 3, 4, 5, 6}, PK=1, MSET={0, 1},
-               NROUT=1, NSAMP=8 if tier == "quick" else 80, STRIDE=1, OFFSET=0)
+               NROUT=1, NSAMP=8 if tier == "quick" else 80, STRIDE=1, OFFSET=0, NSK=1)
     r = core.tlc("Gen_Routing", core.cfg_text(constants=cat, invariants=["Emit"]), "gen_cat", wd, workers=12, timeout=3600, coverage=False,
                  replay_to=path, seed=seed)
     gen_states += r.distinct
